@@ -289,6 +289,24 @@ func TestC04Headers(t *testing.T) {
 		lens = append(lens, 1<<24-1, 1<<24)
 	}
 	h.Enum(t, r, func(yield func(Case) bool) {
+		// contents that need four length octets, held by one element or accumulated by a list of 1024 members
+		for _, n := range []int{1<<24 - 1, 1 << 24, 1<<24 + 1} {
+			v, _ := json.Marshal([]byte(strings.Repeat("y", n)))
+			if !yield(Case{Type: TypeSpec{Prim: "octets"}, Params: "", Val: v}) {
+				return
+			}
+		}
+		{
+			el := TypeSpec{Prim: "octets"}
+			var items [][]byte
+			for i := 0; i < 1024; i++ {
+				items = append(items, []byte(strings.Repeat("z", 16384)))
+			}
+			v, _ := json.Marshal(map[string]interface{}{"F0": items})
+			if !yield(Case{Type: TypeSpec{Kind: "struct", Fields: []FieldSpec{{Name: "F0", Type: TypeSpec{Kind: "slice", Elem: &el}, Tag: "tagNum:1"}}}, Params: "", Val: v}) {
+				return
+			}
+		}
 		for _, tag := range []uint64{30, 31, 127, 128, 16383, 16384, 1<<21 - 1, 1 << 21, 1<<28 - 1, 1 << 28, 1<<35 - 1} {
 			for _, n := range lens {
 				content := strings.Repeat("x", n)
@@ -835,8 +853,9 @@ func judgeC16Mut(c Case) *h.Verdict {
 		return v
 	}
 	// every proper prefix (all for short encodings; all of the first 300 and last 40 octets otherwise)
+	heavy := len(ref) > 100000 // (tens of thousands of elements: every decode is long)
 	for k := 0; k < len(ref); k++ {
-		if len(ref) > 400 && k > 300 && k < len(ref)-40 {
+		if len(ref) > 400 && k > 300 && k < len(ref)-40 || heavy && k > 40 && k < len(ref)-12 {
 			continue
 		}
 		cls := "prefix"
@@ -869,6 +888,9 @@ func judgeC16Mut(c Case) *h.Verdict {
 	tlvPositions(ref, 0, &pos)
 	if len(pos) > 60 {
 		pos = append(pos[:40], pos[len(pos)-20:]...)
+	}
+	if heavy {
+		pos = append(pos[:6:6], pos[len(pos)-4:]...)
 	}
 	for _, ep := range pos {
 		for _, b := range []byte{0, 0x7f, 0x80, 0x81, 0x82, 0x83, 0x84, 0x88, 0xff} {
